@@ -39,7 +39,11 @@ static int wire_direction(const FungPair& p, size_t pi, const TCtx& X, const TCt
     rep().note(hash_combine(hash_combine(hash_str(p.a), hash_str(p.b)), hash_combine(hash_bytes(bytes.data(), bytes.size()), hash_str(dir))), bytes.size() >= 2);
     rep().count("c09_cross_decodes");
     std::string key_rule = p.rule;
-    Source src; src.init(R_PEDANTIC, bytes.data(), bytes.size());
+    // the reader kind rotates (bounded, seekable stream, non-seekable chunked stream): wire compatibility is a statement about the bytes, whichever reader delivers them
+    static const int kRd[] = {R_PEDANTIC, R_STREAM, R_CHUNKED, R_PEDANTIC, R_B_PEDANTIC};
+    int rk = kRd[(size_t)ci % 5]; if (!r_ok(rk, Y.t->flags) || (Y.t->flags & F_HANDLE)) rk = R_PEDANTIC;
+    rep().count(std::string("c09_reader_") + rname(rk));
+    Source src; src.init(rk, bytes.data(), bytes.size(), bytes.size(), 1 + (unsigned)(ci % 6));
     void* yo = Y.t->create(); auto rs = Y.t->read(src, yo);
     if (!rs) { rep().violation(fmt("C09:trait-true-but-not-wire-compatible:%s", key_rule.c_str()), fmt("IsFungible<%s, %s> is true but an encoding of the first (%s) does not decode as the second: '%s' (rule: %s, direction %s)", p.a, p.b, hex(bytes, 32).c_str(), errname(rs.error()), p.rule, dir), cd); Y.t->destroy(yo); continue; }
     if (src.consumed() != bytes.size()) rep().violation(fmt("C09:consumed:%s", key_rule.c_str()), fmt("decoding %s as %s consumed %zu of %zu bytes", p.a, p.b, src.consumed(), bytes.size()), cd);
@@ -74,6 +78,8 @@ int vf::engine_main() {
     if (p.documented && !p.ab) rep().violation(fmt("C09:documented-pair-false:%s", p.rule), fmt("the documentation declares %s and %s fungible (%s) but IsFungible is false", p.a, p.b, p.rule), cd);
     if (p.proto_write != p.ab || p.proto_read != p.ab) rep().violation(fmt("C09:protocol-gate:%s", p.rule), fmt("Protocol<%s>::Write/Read admits %s: write=%d read=%d, IsFungible = %d", p.a, p.b, (int)p.proto_write, (int)p.proto_read, (int)p.ab), cd);
     if (p.sig_arg != p.ab || p.sig_ret != p.ab) rep().violation(fmt("C09:signature-rule:%s", p.rule), fmt("IsFungible on signatures void(A)/void(B) = %d, A(int)/B(int) = %d, IsFungible<A,B> = %d for A = %s, B = %s", (int)p.sig_arg, (int)p.sig_ret, (int)p.ab, p.a, p.b), cd);
+    if (p.bind_ref != p.ab || p.bind_val != p.ab || p.bind_mixed != p.ab || p.bind_ret != p.ab) rep().violation(fmt("C09:bind-gate:%s", p.rule), fmt("Method::Bind of a handler over %s to a method over %s: by const reference=%d, by value=%d, mixed=%d, as return type=%d; IsFungible = %d", p.b, p.a, (int)p.bind_ref, (int)p.bind_val, (int)p.bind_mixed, (int)p.bind_ret, (int)p.ab), cd);
+    rep().count("c09_bind_probes", 4);
     if (p.ab || p.ba) {
       const TypeOps* ta = find_type(p.a); const TypeOps* tb = find_type(p.b);
       if (!ta || !tb) { fprintf(stderr, "fung: type missing for %s\n", pname.c_str()); return 2; }
